@@ -3,6 +3,7 @@ package phase0
 import (
 	"github.com/protolambda/zrnt/eth2/beacon/common"
 	"github.com/protolambda/zrnt/eth2/zzverif"
+	"github.com/protolambda/ztyp/tree"
 )
 
 // group "c08": the integer square root of the (symbolic) total stake is an uninterpreted function (C19 decides it)
@@ -109,4 +110,41 @@ func VerifHarness_C08_rotate() {
 	zzverif.Assert(err == nil, "NewEpochsContext on the post-epoch state")
 	zzverif.Reach("rotate")
 	vSameContext(epc, fresh)
+}
+
+// VerifHarness_C15_context_clone: a cloned context advanced across an epoch boundary on a copied state (whose effective
+// balances changed) leaves every observable field of the original context, and the original state, unchanged.
+func VerifHarness_C15_context_clone() {
+	zzverif.UseOverrides("c08")
+	spec := common.VTinySpec()
+	e := uint64(3)
+	raw := vNewRaw(spec, 2, e)
+	raw.Slot = common.Slot((e+1)*uint64(spec.SLOTS_PER_EPOCH) - 1)
+	st, _ := vStateToView(spec, raw)
+	epc, err := common.NewEpochsContext(spec, st)
+	zzverif.Assert(err == nil, "NewEpochsContext")
+	var before []common.Gwei
+	before = append(before, epc.EffectiveBalances...)
+	stake, cur := epc.TotalActiveStake, epc.CurrentEpoch
+	h := tree.GetHashFn()
+	rootBefore := st.HashTreeRoot(h)
+	cpI, err := st.CopyState()
+	zzverif.Assert(err == nil, "CopyState")
+	cp := cpI.(*BeaconStateView)
+	clone := epc.Clone()
+	// the sibling advances: effective balance of validator 0 drops, slot enters the next epoch
+	vals, _ := cp.Validators()
+	v0, _ := vals.Validator(0)
+	nb := zzverif.NondetU8()
+	zzverif.Assume(nb < 32)
+	_ = v0.SetEffectiveBalance(common.Gwei(nb) * spec.EFFECTIVE_BALANCE_INCREMENT)
+	_ = cp.SetSlot(raw.Slot + 1)
+	zzverif.Assert(clone.RotateEpochs(cp) == nil, "RotateEpochs on the clone")
+	zzverif.Reach("context-clone")
+	zzverif.Assert(len(epc.EffectiveBalances) == len(before), "original context: effective balances size")
+	for i := range before {
+		zzverif.Assert(epc.EffectiveBalances[i] == before[i], "original context: cached effective balances unchanged by the sibling")
+	}
+	zzverif.Assert(epc.TotalActiveStake == stake && epc.CurrentEpoch == cur, "original context: stake and current epoch unchanged by the sibling")
+	zzverif.Assert(st.HashTreeRoot(h) == rootBefore, "original state unchanged by mutations of its copy")
 }
